@@ -23,7 +23,7 @@ increments are generated constants).
   `PosInv`, `TwinInv`, `SlotInv`) is carried over; with `EpochInv`: `BrokerInv` is preserved;
 * `restore` (PUT /api/v3/metadata, the replica path): version guard, `SmallEpoch` guard;
   `C13_restore_mono`: an accepted restore never lowers the global epoch; a rejected one changes
-  nothing; `C13_restore_then_recover`: after restoring any (even stale-in-content) store and running
+  nothing; `C13_restore_then_recover`: after restoring any reachable snapshot (however stale) and running
   recovery with the proxies' largest epoch, the same guarantee holds.
 -/
 namespace Um.Broker.C13
